@@ -19,6 +19,8 @@ pub struct NodeCtl {
 	pub down: AtomicBool,
 	pub pool: Mutex<Vec<Transaction>>,
 	pub calls: AtomicU64,
+	/// cap on the number of leaves returned per get_outputs_by_pmmr_index call
+	pub pmmr_batch: AtomicU64,
 }
 
 #[derive(Clone)]
@@ -44,6 +46,7 @@ impl NodeCtl {
 			down: AtomicBool::new(false),
 			pool: Mutex::new(vec![]),
 			calls: AtomicU64::new(0),
+			pmmr_batch: AtomicU64::new(u64::MAX),
 		})
 	}
 	pub fn client(self: &Arc<Self>) -> ChainNode {
@@ -170,6 +173,7 @@ impl NodeClient for ChainNode {
 		self.ctl.check()?;
 		let chain = &self.ctl.chain;
 		let start_index = std::cmp::max(start_index, 1);
+		let max_outputs = std::cmp::min(max_outputs, self.ctl.pmmr_batch.load(Ordering::Relaxed));
 		let outputs = chain
 			.unspent_outputs_by_pmmr_index(start_index, max_outputs, end_index)
 			.unwrap();
